@@ -88,6 +88,8 @@ func (pass *InlineObjectsWithTypes) processRef(_ *Visitor, _ *ast.Schema, def as
 	}
 
 	typeDef := pass.objectsToInline.Get(def.Ref.String()).DeepCopy()
+	// the nullability of the reference carries over to the inlined type
+	typeDef.Nullable = typeDef.Nullable || def.Nullable
 	typeDef.AddToPassesTrail(fmt.Sprintf("InlineObjectsWithTypes[original=%s]", def.Ref.String()))
 
 	return typeDef, nil
